@@ -2032,6 +2032,14 @@ impl VerylWalker for Formatter {
         self.identifier(&arg.identifier);
         self.space(1);
         self.token_will_push(&arg.l_brace.l_brace_token);
+        if arg.modport_declaration_opt.is_none() && arg.modport_declaration_opt0.is_none() {
+            // Empty body: `{}` like every other empty block. The unconditional
+            // newline_push/newline_pop pair produced `{`, blank line, `}` and one
+            // more blank line on the next run.
+            self.newline_list_post(true, &arg.l_brace.l_brace_token);
+            self.r_brace(&arg.r_brace);
+            return;
+        }
         self.newline_push();
         if let Some(ref x) = arg.modport_declaration_opt {
             self.modport_list(&x.modport_list);
